@@ -79,6 +79,14 @@ def equivalent(a_vals, b_vals, is_eq):
     return True
 
 
+def S(x):
+    """Text of a tree for messages; an ill-formed tree may not print at all."""
+    try:
+        return str(x)
+    except Exception as e:  # noqa: BLE001
+        return f"<does not print: {type(e).__name__}: {e}>"[:120]
+
+
 def explore(args):
     text, ctx, depth, cap = args
     fails = []
@@ -109,22 +117,26 @@ def explore(args):
                 try:
                     targets = rule.find_nodes(root)
                 except Exception as e:  # noqa: BLE001
-                    fails.append({"clause": "find_nodes raised", "detail": f"{rname} on `{root}` (from {hist}): {type(e).__name__}"})
+                    fails.append({"clause": "find_nodes raised", "detail": f"{rname} on `{S(root)}` (from {hist}): {type(e).__name__}"})
                     continue
                 for n in targets:
                     steps += 1
-                    work = n.clone_from_root()
+                    try:
+                        work = n.clone_from_root()
+                    except Exception as e:  # noqa: BLE001
+                        fails.append({"clause": "clone/locates-node", "cfg": rname, "detail": f"clone_from_root of `{S(n)}` in `{S(root)}` raised {type(e).__name__} (history {hist})"[:400]})
+                        continue
                     if path_of(work) != path_of(n) or kind(work) != kind(n):
-                        fails.append({"clause": "clone/locates-node", "cfg": rname, "detail": f"clone_from_root of `{n}` (path '{path_of(n)}') in `{root}` returned the node at '{path_of(work)}' (history {hist})"[:400]})
+                        fails.append({"clause": "clone/locates-node", "cfg": rname, "detail": f"clone_from_root of `{S(n)}` (path '{path_of(n)}') in `{S(root)}` returned the node at '{path_of(work)}' (history {hist})"[:400]})
                         continue
                     try:
                         res = rule.apply_to(work).result.get_root()
                     except Exception as e:  # noqa: BLE001
-                        fails.append({"clause": "C06 apply_to raised", "cfg": rname, "detail": f"{rname} at `{n}` of `{root}` (history {hist}): {type(e).__name__}: {e}"[:300]})
+                        fails.append({"clause": "C06 apply_to raised", "cfg": rname, "detail": f"{rname} at `{S(n)}` of `{S(root)}` (history {hist}): {type(e).__name__}: {e}"[:300]})
                         continue
                     payload = []
                     probs = wf_problems(res, payload=payload)
-                    where = f"{rname} at `{n}` of `{root}` -> `{res}` (history {hist})"
+                    where = f"{rname} at `{S(n)}` of `{S(root)}` -> `{S(res)}` (history {hist})"
                     if probs:
                         fails.append({"clause": "C07 structure", "cfg": rname, "detail": f"{'; '.join(probs[:2])}: {where}"[:400]})
                         continue
@@ -138,7 +150,11 @@ def explore(args):
                     if variables(res) != start_vars:
                         fails.append({"clause": "same-variables", "cfg": rname, "detail": where[:400]})
                     # print / re-parse
-                    txt = str(res)
+                    try:
+                        txt = str(res)
+                    except Exception as e:  # noqa: BLE001
+                        fails.append({"clause": "prints-and-reparses", "cfg": rname, "detail": f"printing raised {type(e).__name__}: {where}"[:400]})
+                        continue
                     try:
                         back = parser.parse(txt)
                         bvals = [evaluate(back, e) for e in envs]
@@ -149,7 +165,7 @@ def explore(args):
                     if txt not in seen and states < cap:
                         seen.add(txt)
                         states += 1
-                        nxt.append((res, hist + [f"{rname}@{n}"]))
+                        nxt.append((res, hist + [f"{rname}@{S(n)}"]))
                         history.append((res, snapshot(res), txt))
         frontier = nxt
     # earlier states never altered
